@@ -37,3 +37,13 @@ var (
 	_ = time.Unix
 	_ jx.Decoder
 )
+
+// time.Time.Format / time.Parse / durations: deterministic functions about which nothing else is assumed.
+//@ extern func (t time.Time) Format(layout string) (s string)
+//@   pure
+//@ extern func time.Parse(layout string, value string) (t time.Time, err error)
+//@   pure
+//@ extern func time.ParseDuration(s string) (d time.Duration, err error)
+//@   pure
+//@ extern func (d time.Duration) String() (s string)
+//@   pure
